@@ -63,8 +63,11 @@ package standard
 //@ // the root of a registration's content (fee recipient, gas limit, public key; no timestamp): assumed injective
 //@ spec func regRoot(fee bellatrix.ExecutionAddress, gas uint64, pubkey phase0.BLSPubKey) phase0.Root
 //@ axiom forall f1 bellatrix.ExecutionAddress, g1 uint64, p1 phase0.BLSPubKey, f2 bellatrix.ExecutionAddress, g2 uint64, p2 phase0.BLSPubKey {regRoot(f1, g1, p1), regRoot(f2, g2, p2)} :: regRoot(f1, g1, p1) == regRoot(f2, g2, p2) ==> f1 == f2 && g1 == g2 && p1 == p2
-//@ // every cached signed registration is stored under the root of its own content
-//@ spec func regCacheOK(s *Service) bool = s.signedValidatorRegistrations != nil && s.latestValidatorRegistrations != nil && (forall r phase0.Root {in(s.signedValidatorRegistrations, r)} :: in(s.signedValidatorRegistrations, r) ==> s.signedValidatorRegistrations[r] != nil && s.signedValidatorRegistrations[r].Message != nil && r == regRoot(s.signedValidatorRegistrations[r].Message.FeeRecipient, s.signedValidatorRegistrations[r].Message.GasLimit, s.signedValidatorRegistrations[r].Message.Pubkey))
+//@ // sigOf(m): the signature the registration signer returned when it was handed the registration message m
+//@ spec func sigOf(m *apiv1.ValidatorRegistration) phase0.BLSSignature
+//@ // every cached signed registration is stored under the root of its own content, and pairs a message with the
+//@ // signature that was made over that very message
+//@ spec func regCacheOK(s *Service) bool = s.signedValidatorRegistrations != nil && s.latestValidatorRegistrations != nil && (forall r phase0.Root {in(s.signedValidatorRegistrations, r)} :: in(s.signedValidatorRegistrations, r) ==> s.signedValidatorRegistrations[r] != nil && s.signedValidatorRegistrations[r].Message != nil && r == regRoot(s.signedValidatorRegistrations[r].Message.FeeRecipient, s.signedValidatorRegistrations[r].Message.GasLimit, s.signedValidatorRegistrations[r].Message.Pubkey) && s.signedValidatorRegistrations[r].Signature == sigOf(s.signedValidatorRegistrations[r].Message))
 //@
 //@ // hashing a registration reads it only; without a timestamp its root is the root of its content
 //@ extern (*github.com/attestantio/go-builder-client/api/v1.ValidatorRegistration).HashTreeRoot
@@ -78,6 +81,7 @@ package standard
 //@   at call SignValidatorRegistration#1: assert arg2 != nil && arg2.V1 == registration
 //@   at call SignValidatorRegistration#1: assert registration.FeeRecipient == relayConfig.FeeRecipient && registration.GasLimit == relayConfig.GasLimit
 //@   at call SignValidatorRegistration#1: assert registration.Pubkey == pubkey
+//@   assumes call SignValidatorRegistration#1 (sig, err): err == nil ==> sig == sigOf(arg2.V1)
 //@   // whether signed now or reused: the registration names this validator with the fee recipient and gas limit resolved
 //@   // for this relay (a cached one is reused only while its content is exactly that)
 //@   ensures result2 == nil ==> result0 != nil && result0.V1 != nil && result0.V1.Message != nil && result0.V1.Message.FeeRecipient == relayConfig.FeeRecipient && result0.V1.Message.GasLimit == relayConfig.GasLimit && result0.V1.Message.Pubkey == pubkey
@@ -88,6 +92,10 @@ package standard
 //@   ensures result2 == nil && calls(SignValidatorRegistration) == 0 ==> old(s.latestValidatorRegistrations[pubkey]) == regRoot(relayConfig.FeeRecipient, relayConfig.GasLimit, pubkey)
 //@   ensures result2 == nil ==> s.latestValidatorRegistrations[pubkey] == regRoot(relayConfig.FeeRecipient, relayConfig.GasLimit, pubkey)
 //@   ensures regCacheOK(s)
+//@   // what the relay is sent is a message together with the signature made over that very message (timestamp included),
+//@   // and the beacon nodes are sent the same signature with the same timestamp
+//@   ensures result2 == nil ==> result0.V1.Signature == sigOf(result0.V1.Message)
+//@   ensures result2 == nil ==> result1.V1.Signature == result0.V1.Signature && result1.V1.Message.Timestamp == result0.V1.Message.Timestamp
 //@   modifies contents(s.signedValidatorRegistrations), contents(s.latestValidatorRegistrations)
 //@
 //@ spec func settingsErr() error
@@ -95,6 +103,8 @@ package standard
 //@   // the accounts come from the accounts provider, which hands out no nil accounts; a configuration is in force
 //@   requires !isnil(account) && s.executionConfig != nil
 //@   requires regCacheOK(s) && controlledValidators != nil && relayRegistrations != nil && nolocks()
+//@   // C17: the set of controlled validators is still being built: it has not yet been put where other goroutines read it
+//@   requires !published(controlledValidators)
 //@   assumes call ProposerConfig#1 (cfg, err): err == settingsErr() && (err == nil ==> cfg != nil && (forall k int :: 0 <= k && k < len(cfg.Relays) ==> cfg.Relays[k] != nil))
 //@   // every relay of the resolved settings gets a registration generated from its own settings, for this validator
 //@   at call generateValidatorRegistrationForRelay#1: assert arg2 == account && arg3 == pubkeyOf(account) && arg4 == proposerConfig.Relays[index] && arg4 == relay
@@ -110,6 +120,7 @@ package standard
 //@   requires (forall k phase0.ValidatorIndex :: in(accounts, k) ==> !isnil(accounts[k])) && regCacheOK(s) && nolocks()
 //@   loop 1
 //@     invariant regCacheOK(s) && relayRegistrations != nil && controlledValidators != nil && nolocks() && s.executionConfig != nil
+//@     invariant !published(controlledValidators)
 //@   // a validator whose settings cannot be resolved does not stop the registrations of the others: with a
 //@   // configuration in force every round gets to the submission
 //@   ensures s.executionConfig != nil ==> result == nil && calls(submitRelayRegistrations) == 1
